@@ -3,6 +3,8 @@ import sys, os, json, time, importlib, multiprocessing, hashlib, traceback, argp
 from . import frontend
 
 VERIF = frontend.VERIF
+# evidence / replays go to /verif unless a seed regression (seedreg.sh) redirects them
+OUT = os.environ.get('VERIF_OUT') or VERIF
 PROPS = ['C%02d' % i for i in range(1, 21)]
 
 
@@ -162,14 +164,14 @@ def main(argv=None):
     out_lines = []
     new_viol = 0
     known_hit = {}
-    os.makedirs(os.path.join(VERIF, 'replays'), exist_ok=True)
+    os.makedirs(os.path.join(OUT, 'replays'), exist_ok=True)
     for v in violations:
         f = match_finding(kf['findings'], pid, v['sig'])
         if f is not None:
             known_hit.setdefault(f.get('id', f.get('sig', f.get('sig_regex'))), (f, []))[1].append(v)
             continue
         h = hashlib.sha256((pid + v['sig']).encode()).hexdigest()[:12]
-        path = os.path.join(VERIF, 'replays', f'{pid}-{h}.json')
+        path = os.path.join(OUT, 'replays', f'{pid}-{h}.json')
         json.dump({'property': pid, 'sig': v['sig'], 'what': v['what'], 'replay': v['replay'],
                    'rerun': f"./check {pid} --replay {path}"}, open(path, 'w'), indent=1)
         out_lines.append(f"VIOLATION property={pid} replay={path}")
@@ -197,8 +199,8 @@ def main(argv=None):
         'assumptions': getattr(m, 'ASSUMPTIONS', []),
         'wall_s': round(wall, 2), 'violations': new_viol,
     }
-    os.makedirs(os.path.join(VERIF, 'evidence'), exist_ok=True)
-    json.dump(ev, open(os.path.join(VERIF, 'evidence', f'{pid}.json'), 'w'), indent=1, default=str)
+    os.makedirs(os.path.join(OUT, 'evidence'), exist_ok=True)
+    json.dump(ev, open(os.path.join(OUT, 'evidence', f'{pid}.json'), 'w'), indent=1, default=str)
     sys.stderr.write(f"[{pid} {tier}] paths={tot['paths']} {kinds} steps={tot['steps']} obligations={tot['obligations']} discharged={tot['discharged']} "
                      f"violations={len(violations)} (new {new_viol}) inconclusive={len(inconclusive)} wall={wall:.1f}s\n")
     if new_viol:
